@@ -223,6 +223,8 @@ class Engine(object):
         self.stat_paths = 0
         self.stat_steps = 0
         self.stat_bodies = set()
+        self._paths = 0
+        self._steps = 0
 
     # ------------------------------------------------------------------ public
     def summarise(self, path_or_body, args=None, opaque=None):
